@@ -335,7 +335,8 @@ theorem tagRel_start_r {L : Nat} {gn ga : Bool} {t : TagOutline} {n : Range} {hs
   exact ⟨_, _, rfl⟩
 
 theorem lexAct_tagreg (F : Frame inpS inpW δ) {ab ab' : Ab} {cs cw : Common} {ls lw : LexRegs} {xs xw : Ctx κ}
-    (h : LexPre δ K ab cs cw ls lw xs xw) (hin : cs.nextPos ≤ inpS.length ∨ Closed inpS inpW δ) (a : ActName)
+    (h : LexPre δ K ab cs cw ls lw xs xw) (a : ActName)
+    (hin : readsInp a = true → (cs.nextPos ≤ inpS.length ∨ Closed inpS inpW δ))
     (ha : a = .finishTagName ∨ a = .updateTagNameHash ∨ a = .markAsSelfClosing)
     (habs : absAct a ab = some ab') :
     ActSim δ K ab' (qRequired a) (lexAct env a inpS cs ls xs) (lexAct env a inpW cw lw xw) := by
@@ -367,7 +368,7 @@ theorem lexAct_tagreg (F : Frame inpS inpW δ) {ab ab' : Ab} {cs cw : Common} {l
       simp only [lexAct]
       have hget : inpW[cw.pos]? = inpS[cs.pos]? := by
         rw [p1]; apply F.get'
-        rcases hin with hin | hin
+        rcases hin rfl with hin | hin
         · left; omega
         · right; exact hin
       rw [hget]
@@ -401,7 +402,8 @@ theorem lexAct_tagreg (F : Frame inpS inpW δ) {ab ab' : Ab} {cs cw : Common} {l
       · exact h.ret _ h.c rfl h.l
 
 theorem lexAct_attr (F : Frame inpS inpW δ) {ab ab' : Ab} {cs cw : Common} {ls lw : LexRegs} {xs xw : Ctx κ}
-    (h : LexPre δ K ab cs cw ls lw xs xw) (hin : cs.nextPos ≤ inpS.length ∨ Closed inpS inpW δ) (a : ActName)
+    (h : LexPre δ K ab cs cw ls lw xs xw) (a : ActName)
+    (hin : readsInp a = true → (cs.nextPos ≤ inpS.length ∨ Closed inpS inpW δ))
     (ha : a = .startAttr ∨ a = .finishAttrName ∨ a = .finishAttrValue ∨ a = .finishAttr)
     (habs : absAct a ab = some ab') :
     ActSim δ K ab' (qRequired a) (lexAct env a inpS cs ls xs) (lexAct env a inpW cw lw xw) := by
@@ -456,7 +458,7 @@ theorem lexAct_attr (F : Frame inpS inpW δ) {ab ab' : Ab} {cs cw : Common} {ls 
       simp only [lexAct, tokenPartRange_eq]
       have hget : inpW[cs.nextPos - 1 + δ]? = inpS[cs.nextPos - 1]? := by
         apply F.get'
-        rcases hin with hin | hin
+        rcases hin rfl with hin | hin
         · left; omega
         · right; exact hin
       rw [p4, hget, h.c.closingQuote]
@@ -535,7 +537,7 @@ theorem lexAct_sim (F : Frame inpS inpW δ) (hops : OpsSim env.ops inpS inpW δ 
     (hc : CRel δ 0 cs cw) (hl : LexRel δ d ab cs.nextPos ls lw) (hsim : xw.sim = xs.sim)
     (hpc : xs.prevConsumed = xw.prevConsumed + δ) (hK : K d xs.sink xw.sink)
     (hd : d = 0 ∨ a = .emitText ∨ a = .emitTextAndEof)
-    (hin : cs.nextPos ≤ inpS.length ∨ Closed inpS inpW δ) :
+    (hin : readsInp a = true → (cs.nextPos ≤ inpS.length ∨ Closed inpS inpW δ)) :
     ActSim δ K ab' (qRequired a) (lexAct env a inpS cs ls xs) (lexAct env a inpW cw lw xw) := by
   by_cases htext : a = .emitText ∨ a = .emitTextAndEof
   · rcases htext with rfl | rfl <;> simp only [absAct] at habs
@@ -638,13 +640,13 @@ theorem lexAct_sim (F : Frame inpS inpW δ) (hops : OpsSim env.ops inpS inpW δ 
     case finishDoctypeName => exact lexAct_doctype h _ (by simp) habs
     case finishDoctypePublicId => exact lexAct_doctype h _ (by simp) habs
     case finishDoctypeSystemId => exact lexAct_doctype h _ (by simp) habs
-    case finishTagName => exact lexAct_tagreg F h hin _ (by simp) habs
-    case updateTagNameHash => exact lexAct_tagreg F h hin _ (by simp) habs
-    case markAsSelfClosing => exact lexAct_tagreg F h hin _ (by simp) habs
-    case startAttr => exact lexAct_attr F h hin _ (by simp) habs
-    case finishAttrName => exact lexAct_attr F h hin _ (by simp) habs
-    case finishAttrValue => exact lexAct_attr F h hin _ (by simp) habs
-    case finishAttr => exact lexAct_attr F h hin _ (by simp) habs
+    case finishTagName => exact lexAct_tagreg F h _ hin (by simp) habs
+    case updateTagNameHash => exact lexAct_tagreg F h _ hin (by simp) habs
+    case markAsSelfClosing => exact lexAct_tagreg F h _ hin (by simp) habs
+    case startAttr => exact lexAct_attr F h _ hin (by simp) habs
+    case finishAttrName => exact lexAct_attr F h _ hin (by simp) habs
+    case finishAttrValue => exact lexAct_attr F h _ hin (by simp) habs
+    case finishAttr => exact lexAct_attr F h _ hin (by simp) habs
     case setClosingQuoteToDouble =>
       simp only [absAct, Option.some.injEq] at habs; subst habs
       exact h.ret _ { hc with closingQuote := rfl } rfl hl
